@@ -250,6 +250,51 @@ def build(tier="quick", seed=0):
                 got = [(it.getattr_(it.getattr_(o, "_desc"), "name"), [tuple(f) for f in it.call(it.getattr_(it.getattr_(o, "_desc"), "get_field_tuples"), [], {})]) for o in out[:3]]
                 want = [("c03/log", [("string", "inuser")]), ("c03/login", [("string", "user")]), ("c03/log", [("string", "inuser")])]
                 return None if got == want else f"records read back with descriptors {got}, written with {want}"
+            if kind == "names that differ only in '/' and '_'":
+                # c03/x_y, c03/x/y and c03_x/y with the same field list are three types: each record carries - and is decoded with - the descriptor it was created with
+                names = ["c03/x_y", "c03/x/y", "c03_x/y", "c03/x_y"]
+                Ds = [it.call(RD, [nm, [("string", "s")]], {}) for nm in names]
+                recs = [it.call(D_, [], {"s": str(i)}) for i, D_ in enumerate(Ds)]
+                created = [it.getattr_(it.getattr_(r, "_desc"), "name") for r in recs]
+                if created != names:
+                    return f"records created through descriptors named {names} carry descriptors named {created}"
+                fp, w, events = mk(None)
+                for r in recs:
+                    it.call(it.getattr_(w, "write"), [r], {})
+                bad = well_ordered(events(), [])
+                if bad:
+                    return bad
+                if fmt == "stream":
+                    rdr = it.call(st.g["RecordStreamReader"], [AbsFile(it, fp.content())], {})
+                else:
+                    rdr = it.call(jf.g["JsonfileReader"], [AbsFile(it, fp.content(), mode="r")], {})
+                got = [it.getattr_(it.getattr_(o, "_desc"), "name") for o in it.iterate(rdr)]
+                return None if got == names else f"records read back under the names {got}, written as {names}"
+            if kind == "write refused while packing, caller carries on":
+                # the first record of a type cannot be serialised (an unpackable value inside a dictlist): the write raises, the caller catches it and
+                # writes a good record of the same type - the definition of the type must still precede it
+                DL = it.call(RD, ["c03/dl", [("dictlist", "dl"), ("varint", "n")]], {})
+                bad_rec = it.call(DL, [], {"dl": [{"k": {1, 2}}], "n": 1})
+                good = it.call(DL, [], {"dl": [{"k": "v"}], "n": SInt(x)})
+                fp, w, events = mk(None)
+                try:
+                    it.call(it.getattr_(w, "write"), [bad_rec], {})
+                    return "a record holding an unpackable value was written"
+                except PyRaise:
+                    pass
+                it.call(it.getattr_(w, "write"), [good], {})
+                it.call(it.getattr_(w, "write"), [a], {})
+                ev = events()
+                bad = well_ordered(ev, [])
+                if bad:
+                    return "after a refused write: " + bad
+                if fmt == "stream":
+                    rdr = it.call(st.g["RecordStreamReader"], [AbsFile(it, fp.content())], {})
+                else:
+                    rdr = it.call(jf.g["JsonfileReader"], [AbsFile(it, fp.content(), mode="r")], {})
+                out = list(it.iterate(rdr))
+                got = [it.getattr_(it.getattr_(o, "_desc"), "name") for o in out]
+                return None if got == ["c03/dl", "c03/a"] else f"after a refused write the stream reads back as {got}, written: c03/dl, c03/a"
             if kind == "two writers":
                 fp1, w1, ev1 = mk(None)
                 fp2, w2, ev2 = mk(None)
@@ -278,7 +323,7 @@ def build(tier="quick", seed=0):
             raise KeyError(kind)
         return th
 
-    KINDS = ["new type", "known type", "same name registered", "nested, nothing known", "nested, holder known", "nested, inner known", "grouped, nothing known", "grouped, one member known", "grouped, same names registered", "grouped twice, other members", "same hash text, other name", "two writers", "frame"]
+    KINDS = ["new type", "known type", "same name registered", "nested, nothing known", "nested, holder known", "nested, inner known", "grouped, nothing known", "grouped, one member known", "grouped, same names registered", "grouped twice, other members", "same hash text, other name", "write refused while packing, caller carries on", "names that differ only in '/' and '_'", "two writers", "frame"]
     for fmt in ("stream", "json"):
         for kind in KINDS:
             if fmt == "json" and kind.startswith("grouped"):
